@@ -1,7 +1,8 @@
 (* C04 — user data is rendered from its content or preserved byte-for-byte as a hex dump. *)
 From Coq Require Import List NArith ZArith Bool Arith.
 From PV Require Import Base.Bytes Base.Lit Base.Json Base.PelTypes Model.Hexdump Model.Parse Model.Render Spec.Encode Gen.Tables
-                       Proofs.HexdumpRoundtrip Proofs.RenderFacts Proofs.UdFacts.
+                       Proofs.HexdumpRoundtrip Proofs.RenderFacts Proofs.UdFacts
+                       Model.Pretty Model.JsonLoads Proofs.JsonLoadsFacts.
 Import ListNotations.
 Open Scope N_scope.
 
@@ -39,15 +40,64 @@ Theorem C04_builtin_text : forall e c h cr txt,
 Proof. exact builtin_text_spec. Qed.
 Print Assumptions C04_builtin_text.
 
-(* built-in JSON: exactly the section's text is what json.loads is applied to (the harness applies Python's json.loads to the
-   marked text: an object is merged into the section, any other value is shown under "Data") *)
+(* built-in JSON: the section is what json.loads (Model/JsonLoads.v: CPython's scanner, OrderedDict pairs) makes of exactly the
+   section's text - an object is merged into the section, any other value is shown under "Data", text that is not JSON is
+   hex dumped; only for a value with a float or nested deeper than depth_limit the text is left to Python (marker) *)
 Theorem C04_builtin_json : forall e c h cr txt,
   (is_bmc cr && (h_comp h =? 8192)) = true -> h_sub h = UserDataFormat_json ->
   Forall (fun x => x < 128) txt -> strip_ws txt = txt -> rstrip_nul txt = txt ->
   render_ud e c h cr txt =
-    Some (base_fields e h cr (L "Created by") ++ [(L "@loads", JStr txt); (L "@fallback", jstrs (hexdump txt))]).
+    match loads txt with
+    | LOk (JObj l) => Some (obj_update (base_fields e h cr (L "Created by")) l)
+    | LOk j => Some (obj_set (base_fields e h cr (L "Created by")) (L "Data") j)
+    | LError => Some (obj_set (base_fields e h cr (L "Created by")) (L "Data") (jstrs (hexdump txt)))
+    | LBeyond => Some (base_fields e h cr (L "Created by") ++ [(L "@loads", JStr txt); (L "@fallback", jstrs (hexdump txt))])
+    end.
 Proof. exact builtin_json_spec. Qed.
 Print Assumptions C04_builtin_json.
+
+(* "appears as that same JSON value": whatever JSON text of the value j the section holds (any placement of blanks: its token
+   sequence is that of j), for every value without floats, with scalar-value strings, distinct keys within an object, integer
+   literals within the digit limit and nesting within depth_limit, the section shows j itself *)
+Theorem C04_builtin_json_value : forall e c h cr txt j,
+  (is_bmc cr && (h_comp h =? 8192)) = true -> h_sub h = UserDataFormat_json ->
+  Forall (fun x => x < 128) txt -> strip_ws txt = txt -> rstrip_nul txt = txt ->
+  tokens txt = Some (toks j) -> wf_json j ->
+  render_ud e c h cr txt =
+    Some (match j with
+          | JObj l => obj_update (base_fields e h cr (L "Created by")) l
+          | _ => obj_set (base_fields e h cr (L "Created by")) (L "Data") j
+          end).
+Proof.
+  intros e c h cr txt j Hb Hs Ha Hw Hn Ht Hj. rewrite (builtin_json_spec e c h cr txt Hb Hs Ha Hw Hn).
+  rewrite (loads_of_tokens txt j Ht Hj). destruct j; reflexivity.
+Qed.
+Print Assumptions C04_builtin_json_value.
+
+(* the two printers of the json module produce such texts: json.dumps(j) and json.dumps(j, indent=4) *)
+Theorem C04_json_texts : forall j, has_float j = false ->
+  tokens (render j) = Some (toks j) /\ tokens (dumps4 0 j) = Some (toks j).
+Proof. intros j H. split; apply lexes_tokens; [apply lexes_render|apply lexes_dumps4]; exact H. Qed.
+Print Assumptions C04_json_texts.
+
+(* text that json.loads rejects is preserved: the "Data" lines parse back to the text *)
+Theorem C04_builtin_not_json : forall e c h cr txt,
+  (is_bmc cr && (h_comp h =? 8192)) = true -> h_sub h = UserDataFormat_json ->
+  Forall (fun x => x < 128) txt -> strip_ws txt = txt -> rstrip_nul txt = txt ->
+  N.of_nat (length txt) + 16 <= 2 ^ 32 -> loads txt = LError ->
+  render_ud e c h cr txt = Some (obj_set (base_fields e h cr (L "Created by")) (L "Data") (jstrs (hexdump txt))) /\ parse default_fmt (hexdump txt) = txt.
+Proof.
+  intros e c h cr txt Hb Hs Ha Hw Hn Hl He. rewrite (builtin_json_spec e c h cr txt Hb Hs Ha Hw Hn), He. split; [reflexivity|].
+  apply dump_recovers; [|exact Hl]. eapply Forall_impl; [|exact Ha]. intros x Hx. cbv beta in Hx. apply N.lt_trans with 128; [exact Hx|reflexivity].
+Qed.
+Print Assumptions C04_builtin_not_json.
+
+Example C04_json_example :
+  (loads (L "{""a"": [1, -20, ""x\u00e9\ud83d\ude00""], ""b"": {}, ""a"": null}") =
+     LOk (JObj [(L "a", JNull); (L "b", JObj [])])) /\
+  (loads (L "[1, 2") = LError) /\ (loads (L "1.5") = LBeyond) /\
+  (loads (L "[1, -20, ""x\u00e9\ud83d\ude00""]") = LOk (JArr [JNum 1; JNum (-20); JStr [120; 233; 128512]])).
+Proof. repeat split; vm_compute; reflexivity. Qed.
 
 Example C04_example : spec_lines (L "ab" ++ [10; 1] ++ L "c" ++ [10]) = [L "ab"; L ".c"].
 Proof. vm_compute. reflexivity. Qed.
